@@ -63,7 +63,7 @@ Proof.
 Qed.
 
 (* ---------- maximal munch ---------- *)
-Definition lexeme_len (l : lexeme) : nat := match l with Tok _ n => n | Skip n => n | Comment => 2 | Eof => 0 end.
+Definition lexeme_len (l : lexeme) : nat := match l with Tok _ n => n | Skip _ n => n | Comment => 2 | Eof => 0 end.
 Lemma candidates_len literals s l k : In (l, k) (candidates literals s) -> 0 < k -> lexeme_len l = k.
 Proof.
   unfold candidates. rewrite !in_app_iff. cbn [In]. intros [H|[H|H]] Hk.
@@ -94,7 +94,7 @@ Proof.
   unfold lex1. set (cs := candidates literals (c :: r)).
   assert (exists l k, In (l, k) cs /\ 0 < k) as (l0 & k0 & Hin0 & Hk0).
   { destruct (is_nl c) eqn:Hn.
-    - exists (Tok KLineEnd (m_nl (c :: r))), (m_nl (c :: r)). split; [unfold cs, candidates; rewrite !in_app_iff; left; cbn; tauto | unfold m_nl; cbn; rewrite Hn; lia].
+    - exists (Tok KLf (m_nl (c :: r))), (m_nl (c :: r)). split; [unfold cs, candidates; rewrite !in_app_iff; left; cbn; tauto | unfold m_nl; cbn; rewrite Hn; lia].
     - exists (Tok KError (m_any (c :: r))), (m_any (c :: r)). split; [unfold cs, candidates; rewrite !in_app_iff; right; right; cbn; tauto | cbn; rewrite Hn; lia]. }
   pose proof (pick_max cs Eof 0 l0 k0 Hin0) as Hm.
   destruct (pick_in cs Eof 0) as [E|Hi]; [rewrite E in Hm; cbn in Hm; lia|].
